@@ -9,7 +9,7 @@ only by the program's own synchronisation).
 """
 import os, re, time
 from engine import sched as S
-from engine.common import NCPU
+from engine.common import NCPU, sh
 
 META = {
     'level': 'model_checking',
@@ -243,6 +243,22 @@ def run(ck):
         total += campaign(ck, p[1], p[0], *p[2:], stats)
     outs = stats.get('outcomes', set())
     ck.assumptions += ['sequentially consistent interleavings; data-race freedom is checked per schedule by the TSan variant', 'libc internals are not scheduling points (never contended under the serialising scheduler)']
+    # ---- one schedule the cooperative scheduler cannot produce (it needs the kernel's partial pipe write): stdout is a nearly full pipe read slowly, both threads'
+    # records are longer than PIPE_BUF, both have passed the "is there room" test; the real shared library, preloaded.  Every line the reader gets must be one record.
+    from engine import build as _b
+    from engine.common import CLEAN_ENV as _CE, VERIF as _V
+    so = _b.build_libsnoopy_so('c09-so', san='plain')
+    idr = os.path.join(ck.workdir, 'interleave')
+    os.makedirs(idr, exist_ok=True)
+    rcc = sh(['gcc', '-O0', '-g', '-rdynamic', '-pthread', '-o', os.path.join(idr, 'interleave'), os.path.join(_V, 'native/h_interleave.c')])
+    if rcc.returncode:
+        raise RuntimeError('h_interleave build failed: ' + rcc.stderr.decode()[:300])
+    open(os.path.join(idr, 'snoopy.ini'), 'w').write('[snoopy]\nmessage_format = "%{cmdline}"\ndatasource_message_max_length = 16k\noutput = stdout\n')
+    rv = sh([os.path.join(idr, 'interleave')], env=dict(_CE, LD_PRELOAD=so['so'], VERIF_SNOOPY_INI=os.path.join(idr, 'snoopy.ini')), cwd=idr, timeout=120)
+    if rv.returncode not in (0, 1):
+        raise RuntimeError('h_interleave could not reach its schedule (status %s): %s' % (rv.returncode, rv.stderr.decode()[-300:]))
+    if rv.returncode == 1:
+        ck.violation('C09:records_of_two_threads_mixed_on_stdout:nearly_full_pipe:records_longer_than_PIPE_BUF', {'stderr': rv.stderr.decode()[-500:]})
     ck.coverage(states=len(outs) + stats.get('hashed_states', 0), transitions=total, traces_validated_against_impl=total, evaluations=total, distinct_nontrivial=len(outs),
                 rule='all schedules within the preemption bound per campaign, one process each; distinct = distinct (campaign, record order with thread counts) observed',
                 campaigns=stats.get('campaigns', []), determinism_replays=2, unreproducible_hangs_replayed_ok=len(S.UNREPRODUCIBLE_HANGS), replay_divergences=stats.get('diverged', 0), scheduler_states_in_hashed_passes=stats.get('hashed_states', 0),
